@@ -209,7 +209,7 @@ def obs (Γ : Env) (π : List String) : Node → Option Ty → String → List O
        | some b => obs (Γ.bindParams ps) (π' ++ ["body"]) b
            ((match inf with | some t => some t | none => ret).map (deproj Γ.lt)) "result"
        | none => [])
-  | .paramDecl nm t va d, _, _ =>
+  | .paramDecl nm t _va d, _, _ =>
       typeWf Γ.classes (π ++ ["param:" ++ nm]) t ++
       (match d with
        | some d => obs Γ (π ++ ["param:" ++ nm]) d (some (deproj Γ.lt t)) "default-arg"
@@ -302,7 +302,7 @@ def obs (Γ : Env) (π : List String) : Node → Option Ty → String → List O
             (boundObs π' "type-arg-bound" tps targs m ++ typeWfL Γ.classes π' targs ++
              pl.2.map (fun e => ob π' e (.holds false)) ++
              obsZip Γ π' 0 args pl.1)))
-  | .superInst t args, _, _ =>
+  | .superInst _t args, _, _ =>
       -- only reached through `obsClass`; the arguments are walked there
       (match args with | some as => obsZip Γ π 0 as [] | none => [])
   | .classDecl nm ct fin fields supers funcs tps, _, _ =>
@@ -399,6 +399,22 @@ deriving Inhabited, Repr
 def Judg.detail : Judg → String
   | .asg (some a) e => getName a ++ " is not assignable to " ++ getName e
   | .asg none e => "untypable expression where " ++ getName e ++ " is expected"
+  | .holds _ => ""
+
+/-- coarse kind of a type, for shape signatures of findings -/
+def kindOf : Ty → String
+  | builtin .. => "builtin"
+  | simple .. => "class"
+  | param .. => "class"
+  | tcon .. => "class"
+  | tparam .. => "typevar"
+  | wild .. => "projection"
+  | nothing => "nothing"
+  | ext _ => "ext"
+
+def Judg.kinds : Judg → String
+  | .asg (some a) e => kindOf a ++ "->" ++ kindOf e
+  | .asg none e => "untypable->" ++ kindOf e
   | .holds _ => ""
 
 def checkProgram (lt : LangTypes) (p : Program) : CheckResult :=
